@@ -870,6 +870,16 @@ func (x *vc) evalCall(env *cenv, e *cexpr) Val {
 			x.cfail("off(x): x must be a slice")
 		}
 		return Val{T: app("sl_off", v.T), Typ: intT}
+	case "slot": // slot(s, p): the element at absolute position p of s's backing array (s[i] == slot(s, off(s)+i)):
+		// quantifying over absolute positions makes facts about s carry over to s[k:] without an index shift
+		v := x.eval(env, e.args[0])
+		p := x.eval(env, e.args[1])
+		st, ok := v.Typ.Underlying().(*types.Slice)
+		if !ok {
+			x.cfail("slot(s, p): s must be a slice")
+		}
+		name, srt := x.elemArr(env.st, st.Elem())
+		return Val{T: app("select", app("select", x.heapArr(env.st, name, srt), app("sl_arr", v.T)), p.T), Typ: st.Elem()}
 	case "arr": // arr(s): the backing array (object identity) of slice s
 		v := x.eval(env, e.args[0])
 		if x.srt.sortOf(v.Typ) != sSlice {
